@@ -419,6 +419,69 @@ def path_condition(mod, stmt, root):
     return conds
 
 
+
+# ------------------------------------------------------------------------------------------------ guarded values
+def cond_key(t, pol):
+    """Canonical key of one path condition.  `x`, `x is not None` (and their negations) are the same question
+    ('is x set') for the rules that use this."""
+    t, pol = _positive(t, pol)
+    if isinstance(t, ast.Name):
+        return (f"set:{t.id}", pol)
+    if isinstance(t, ast.Compare) and len(t.ops) == 1 and isinstance(t.ops[0], ast.Is) and isinstance(t.left, ast.Name) \
+            and isinstance(t.comparators[0], ast.Constant) and t.comparators[0].value is None:
+        return (f"set:{t.left.id}", not pol)
+    return (norm(t), pol)
+
+
+def about(conds, *names):
+    """The conditions that mention one of the given variables (validation guards that left the function earlier - the
+    early-exit negations collected by path_condition - are common to everything that follows and say nothing here)."""
+    import re as _re
+    return frozenset((k, pol) for k, pol in conds if any(_re.search(rf"\b{_re.escape(nm)}\b", k) for nm in names))
+
+
+def split_conditional(expr, conds=()):
+    """[(conditions, leaf expression)] of a (possibly nested) conditional expression."""
+    if isinstance(expr, ast.IfExp):
+        return split_conditional(expr.body, conds + (cond_key(expr.test, True),)) + \
+            split_conditional(expr.orelse, conds + (cond_key(expr.test, False),))
+    return [(frozenset(conds), expr)]
+
+
+def guarded_returns(f, expand=True):
+    """What the function returns under which conditions: [(frozenset of condition keys, expression | None)], the same for
+    `if c: return a` / `return a if c else b` / `r = a if c else b; return r`."""
+    from ..astq import expand_locals
+    out = []
+    for n in f.own_nodes():
+        if isinstance(n, ast.Return):
+            base = tuple(cond_key(t, pol) for t, pol in path_condition(f.module, n, f.node))
+            if n.value is None:
+                out.append((frozenset(base), None))
+                continue
+            v = n.value
+            if expand and isinstance(v, ast.Name):
+                # a result variable assigned on several branches: one guarded value per assignment
+                asg = [a for a in f.own_nodes() if isinstance(a, ast.Assign) and len(a.targets) == 1 and is_name(a.targets[0], v.id)]
+                if asg and v.id not in f.params and len(asg) == len(f.bindings.get(v.id, [])):
+                    for a in asg:
+                        ab = tuple(cond_key(t, pol) for t, pol in path_condition(f.module, a, f.node))
+                        out += split_conditional(a.value, base + ab)
+                    continue
+            out += split_conditional(expand_locals(f, v) if expand else v, base)
+    return out
+
+
+def guarded_assigns(f, name):
+    """[(conditions, expression)] over all plain assignments `name = ...` in f (conditional expressions split)."""
+    out = []
+    for a in f.own_nodes():
+        if isinstance(a, ast.Assign) and len(a.targets) == 1 and is_name(a.targets[0], name):
+            base = tuple(cond_key(t, pol) for t, pol in path_condition(f.module, a, f.node))
+            out += split_conditional(a.value, base)
+    return out
+
+
 def cond_set(conds, name):
     """Do the path conditions say that variable `name` is set (truthy / not None)?"""
     return any((norm(t) == name and pol) or (norm(t) == f"{name} is None" and not pol) for t, pol in conds)
